@@ -1347,4 +1347,118 @@ theorem oinv_init (limit lph : Nat) (keys : List Key) : OInv (init limit lph key
   · intro c hc; simp [connOpen, init] at hc
   · intro hc; simp [init] at hc
 
+/-! ## the wake-up step -/
+
+theorem order_mem {perm ks : List Key} {k : Key} (h : k ∈ ks) : k ∈ order perm ks := by
+  unfold order
+  by_cases hp : k ∈ perm
+  · apply List.mem_append_left
+    simp [List.mem_filter, h, hp]
+  · apply List.mem_append_right
+    simp [List.mem_filter, h, hp]
+
+/-- `wakeScan` on the queue of key `k`: the first pending waiter of that key is found if there is one;
+everything it drops is a finished waiter of key `k` -/
+theorem wakeScan_spec (s : St) (k : Key) (l : List Tid) :
+    (∀ u, (wakeScan s k l).1 = some u → u ∈ l ∧ keyOf s u = k ∧ futOf s u = .pending)
+    ∧ ((wakeScan s k l).1 = none → ∀ u ∈ l, keyOf s u = k → futOf s u ≠ .pending)
+    ∧ (∀ u ∈ l, u ∈ (wakeScan s k l).2 ∨ (keyOf s u = k ∧ (futOf s u ≠ .pending ∨ (wakeScan s k l).1 = some u))) := by
+  induction l with
+  | nil => simp [wakeScan]
+  | cons a t ih =>
+    unfold wakeScan
+    split
+    · next hk =>
+      split
+      · next hp =>
+        refine ⟨?_, ?_, ?_⟩
+        · intro u hu; cases hu; exact ⟨by simp, hk, hp⟩
+        · intro hn; cases hn
+        · intro u hu
+          rcases List.mem_cons.mp hu with e | e
+          · subst e; exact Or.inr ⟨hk, Or.inr rfl⟩
+          · exact Or.inl e
+      · next hp =>
+        refine ⟨?_, ?_, ?_⟩
+        · intro u hu; obtain ⟨h1, h2, h3⟩ := ih.1 u hu; exact ⟨List.mem_cons_of_mem _ h1, h2, h3⟩
+        · intro hn u hu hku
+          rcases List.mem_cons.mp hu with e | e
+          · subst e; exact hp
+          · exact ih.2.1 hn u e hku
+        · intro u hu
+          rcases List.mem_cons.mp hu with e | e
+          · subst e; exact Or.inr ⟨hk, Or.inl hp⟩
+          · exact ih.2.2 u e
+    · next hk =>
+      refine ⟨?_, ?_, ?_⟩
+      · intro u hu; obtain ⟨h1, h2, h3⟩ := ih.1 u hu; exact ⟨List.mem_cons_of_mem _ h1, h2, h3⟩
+      · intro hn u hu hku
+        rcases List.mem_cons.mp hu with e | e
+        · subst e; exact absurd hku hk
+        · exact ih.2.1 hn u e hku
+      · intro u hu
+        rcases List.mem_cons.mp hu with e | e
+        · subst e; left; simp
+        · rcases ih.2.2 u e with h1 | h1
+          · left; exact List.mem_cons_of_mem _ h1
+          · right; exact h1
+
+theorem futOf_wake {s : St} {u : Tid} (h : futOf s u = .pending) : futOf (wake s u) u = .woken := by
+  unfold futOf at h
+  unfold wake
+  split
+  · next x hx =>
+    have hlt := lt_of_get hx
+    simp [futOf, setTask, hlt]
+  · next hx => simp [hx] at h
+
+/-- what `_release_waiter` achieves on any state: if some key in the visiting order has capacity and a
+pending waiter queued, then exactly one waiter `u` is woken (appended to the ready queue, future set),
+and `u` was a queued pending waiter whose key has capacity -/
+theorem releaseWaiterKeys_wakes (ks : List Key) : ∀ (s : St) (t : Tid),
+    keyOf s t ∈ ks → hasCap s (keyOf s t) = true → t ∈ s.waitq → futOf s t = .pending →
+    ∃ u, u ∈ s.waitq ∧ futOf s u = .pending ∧ hasCap s (keyOf s u) = true
+      ∧ (releaseWaiterKeys s ks).ready = s.ready ++ [u] ∧ futOf (releaseWaiterKeys s ks) u = .woken := by
+  induction ks with
+  | nil => intro s t h; cases h
+  | cons k ks ih =>
+    intro s t hk hcap hw hf
+    unfold releaseWaiterKeys
+    have sp := wakeScan_spec s k s.waitq
+    by_cases hc : hasCap s k = true
+    · rw [if_pos hc]; dsimp only
+      split
+      · next u hu =>
+        obtain ⟨h1, h2, h3⟩ := sp.1 u hu
+        refine ⟨u, h1, h3, by rw [h2]; exact hc, ?_, ?_⟩
+        · unfold wake
+          have : ∃ x, s.tasks[u]? = some x := by
+            unfold futOf at h3; cases hx : s.tasks[u]? with
+            | none => simp [hx] at h3
+            | some x => exact ⟨x, rfl⟩
+          obtain ⟨x, hx⟩ := this
+          have hx' : ({ s with waitq := (wakeScan s k s.waitq).2 } : St).tasks[u]? = some x := hx
+          simp only [hx']
+        · exact futOf_wake (s := { s with waitq := (wakeScan s k s.waitq).2 }) h3
+      · next hn =>
+        -- no pending waiter of key k: t has another key and is still queued
+        have hne : keyOf s t ≠ k := fun e => sp.2.1 hn t hw e hf
+        have hk' : keyOf s t ∈ ks := by
+          rcases List.mem_cons.mp hk with e | e
+          · exact absurd e hne
+          · exact e
+        have hw' : t ∈ (wakeScan s k s.waitq).2 := by
+          rcases sp.2.2 t hw with h1 | ⟨h1, _⟩
+          · exact h1
+          · exact absurd h1 hne
+        obtain ⟨u, g1, g2, g3, g4, g5⟩ := ih { s with waitq := (wakeScan s k s.waitq).2 } t hk' hcap hw' hf
+        exact ⟨u, wakeScan_sub s k _ u g1, g2, g3, g4, g5⟩
+    · rw [if_neg hc]
+      have hne : keyOf s t ≠ k := fun e => hc (by rw [← e]; exact hcap)
+      have hk' : keyOf s t ∈ ks := by
+        rcases List.mem_cons.mp hk with e | e
+        · exact absurd e hne
+        · exact e
+      exact ih s t hk' hcap hw hf
+
 end Aio.C07
